@@ -90,7 +90,7 @@ CHECKS = {
               'and compared exactly (rationals, texts, booleans); numeric literal texts are compared in exact decimal mode; random '
               'deeper formulas are re-parsed and re-evaluated by TLC from recorded events (Trace_C01).'),
         design_ref='§7 C01',
-        note=NOTE_COMMON + 'Findings C01-F1/F2 (right-recursive grouping of comparisons and &) are open with syntactic guards computed by the spec; within a guard the deviant outcome is not modelled (precision any).',
+        note=NOTE_COMMON + 'No open finding (C01-F1/F2 - right-recursive grouping of comparisons and & - were repaired in the expression translator). Text-versus-number comparisons are not pinned.',
         technique='TLA+ executable grammar/evaluator as oracle, TLC-enumerated chains replayed, trace validation'),
     'C10': dict(
         category='model_checking',
@@ -192,7 +192,7 @@ CHECKS = {
               'the spec\'s selection; random longer columns with 1..3 pairs are observed through SUMIFS over a power-of-two target column and judged by '
               'TLC (Trace_C12).'),
         design_ref='§7 C12',
-        note=NOTE_COMMON + 'Open findings C12-F1 (operator prefixes only parsed in "<op><number>" literals), C12-F2 (ordering criterion vs text cell raises), C12-F3 (blank counted as 0) with spec-computed guards; inside a guard the deviant outcome is not modelled (precision any). Numeric-looking and calendar-word texts are kept out (dateutil clock hazard).',
+        note=NOTE_COMMON + 'Open findings C12-F1 (operator prefixes only parsed in "<op><number>" literals), C12-F2 (ordering criterion vs text cell raises), C12-F3 (blank counted as 0), C12-F4 (truth values compared as 1 / 0) with spec-computed guards; inside a guard the deviant outcome is not modelled (precision any). Numeric-looking and calendar-word texts are kept out (dateutil clock hazard).',
         technique='TLA+ criteria oracle with TLC-checked laws, TLC-enumerated columns x criteria x spellings replayed, trace validation'),
     'C07': dict(
         category='model_checking',
